@@ -268,7 +268,7 @@ theorem pos_ne_nil (c : CBF) (hs : List Nat) (hk : 0 < c.k) (hl : c.k ≤ hs.len
   have : (pos c hs).length = c.k := by simp [pos]; omega
   rw [h] at this; simp at this; omega
 
-theorem zip_map_self {α β} (l : List α) (f : α → β) : l.zip (l.map f) = l.map fun a => (a, f a) := by
+theorem zip_map_self_cc {α β} (l : List α) (f : α → β) : l.zip (l.map f) = l.map fun a => (a, f a) := by
   induction l with
   | nil => rfl
   | cons a l ih => simp [ih]
@@ -288,7 +288,7 @@ theorem addAlt_unsat (c : CBF) (hs : List Nat) (n : Int) (hl : c.k ≤ hs.length
        .ok (minList ((pos c hs).map fun j => c.cells.getD j 0 + n))) := by
   unfold addAlt
   rw [indices_ok c hs hl]
-  simp only [zip_map_self]
+  simp only [zip_map_self_cc]
   rw [addLoop_unsat n hn]
   · simp [List.map_map, Function.comp_def]
   · intro p hp
